@@ -18,9 +18,16 @@ cFosSet == FosSet
 
 
 
+\* references are late bound: after the merge a reference denotes what its target holds THEN
+RECURSIVE Retarget(_,_)
+Retarget(t, root) ==
+  IF t.k = "alias" THEN (IF t.to \in DOMAIN root.d THEN Alias(t.to, root.d[t.to]) ELSE t)
+  ELSE IF t.k = "n" THEN N([key \in DOMAIN t.d |-> Retarget(t.d[key], root)], [i \in 1..Len(t.a) |-> Retarget(t.a[i], root)])
+  ELSE t
+Late(t) == IF t.k = "n" THEN Retarget(t, t) ELSE t
 Case(b, pol, fos) ==
-  LET ideal == ObsTopN(Merge({}, pol, fos, a, b))
-      alts  == {[devs |-> DS, out |-> ObsTopN(Merge(DS, pol, fos, a, b))] : DS \in DevSets}
+  LET ideal == ObsTopN(Late(Merge({}, pol, fos, a, b)))
+      alts  == {[devs |-> DS, out |-> ObsTopN(Late(Merge(DS, pol, fos, a, b)))] : DS \in DevSets}
       diff  == {x \in alts : x.out # ideal}
   IN [a |-> a, b |-> b, pol |-> pol, fos |-> fos,
       exp |-> [ideal |-> ideal, alts |-> SetToSeq(diff)]]
@@ -37,7 +44,11 @@ FosSingle == FosOf(FP_All)
 FosNamed  == FosOf(FP_Named)
 FosPairs  == {<<[path |-> <<NF("a")>>, pol |-> p1], [path |-> <<NF("a"), NF("b")>>, pol |-> p2]>> : p1, p2 \in FPols}
              \cup {<<[path |-> <<NF("b")>>, pol |-> p1], [path |-> <<NF("b")>>, pol |-> p2]>> : p1, p2 \in FPols}
-FosAll    == FosSingle \cup FosPairs
+\* a depth selector (**.b) together with another option that matches a field ABOVE one of its matches (a, **.a): the **
+\* entries must stay reachable below a field that has a policy of its own
+FosStar   == {<<[path |-> p, pol |-> p1], [path |-> <<NF("**"), NF("b")>>, pol |-> p2]>> :
+                 p1, p2 \in FPols, p \in {<<NF("a")>>, <<NF("**"), NF("a")>>, <<NF("a"), NF("a")>>}}
+FosAll    == FosSingle \cup FosPairs \cup FosStar
 FosIdx    == FosOf({<<NF("a"), IX(1)>>, <<NF("a"), IX(0)>>, <<NF("a"), IX(1), IX(0)>>})
              \cup {<<[path |-> <<NF("a"), IX(1)>>, pol |-> p1], [path |-> <<NF("a"), NF("b")>>, pol |-> p2]>> : p1, p2 \in FPols}
              \* a policy for the LIST itself and another one for a path through one of its indices (the policy node of
